@@ -494,7 +494,7 @@ func genPoolCases(c *Ctx) []json.RawMessage {
 	rng := rand.New(rand.NewSource(c.Seed*15485863 + 9))
 	// readers: histories that retain slices across growth
 	sizes := []int{1, 100, 4000, 4096, 4097, 9000, 20000}
-	nR := c.Pick(1200, 15000)
+	nR := c.Pick(1200, 6000)
 	for i := 0; i < nR; i++ {
 		cs := &RdCase{Fl: "io", Fk: "EOF", Wd: rng.Intn(2) == 0, Seed: rng.Intn(250), S: 1000 + rng.Intn(120000)}
 		switch rng.Intn(4) {
@@ -525,7 +525,7 @@ func genPoolCases(c *Ctx) []json.RawMessage {
 		}
 		out = append(out, mustJSON(pcase))
 	}
-	nW := c.Pick(1200, 15000)
+	nW := c.Pick(1200, 6000)
 	inits := [][3]int{{0, 0, 1}, {0, 0, 0}, {0, 16, 0}, {5, 16, 0}, {16, 16, 0}, {4096, 4096, 0}, {5000, 8192, 0}}
 	for i := 0; i < nW; i++ {
 		cs := &WrCase{Fl: "io", Shuffle: rng.Int63()}
@@ -552,7 +552,7 @@ func genPoolCases(c *Ctx) []json.RawMessage {
 		cs.Ops = append(cs.Ops, WrOp{Op: "flush"})
 		out = append(out, mustJSON(pcase))
 	}
-	nD := c.Pick(600, 6000)
+	nD := c.Pick(600, 3000)
 	for i := 0; i < nD; i++ {
 		pcase := PoolCase{Kind: "decoder", CoEvery: rng.Intn(3)}
 		if i%2 == 1 {
